@@ -1,19 +1,5 @@
 /-
-  ⟦Create⟧ with an open flag that allows an existing file (no O_EXCL, no O_TRUNC): the file
-  is cut or extended to the size of the new layout at once — what it held inside that size
-  stays on the disk — and the header goes to the buffer only.
+  ⟦Create⟧ with an open flag that allows an existing file: `recreateHandle` lives with the
+  file/handle state machine (Model/World.lean, operation `createOver`).
 -/
-import Wsp.Model.Whisper
-namespace Wsp
-
-def recreateHandle (o : FOps) (agg : Nat) (xff : UInt32) (lay : List (Int × Nat)) (old : Bytes) : R (Bytes × Handle) :=
-  match newHeader o agg xff lay with
-  | .error e => .error e
-  | .ok h =>
-    let size := h.expectedFileSize
-    let disk : Bytes := old.take size ++ List.replicate (size - old.length) 0
-    match writeAt disk 0 (encHeader h) with
-    | .error e => .error e
-    | .ok view => .ok (disk, ⟨h, view⟩)
-
-end Wsp
+import Wsp.Model.World
